@@ -207,7 +207,7 @@ func (w *Worktree) updateSubmodules(ctx context.Context, o *SubmoduleUpdateOptio
 }
 
 // Checkout switch branches or restore working tree files.
-func (w *Worktree) Checkout(opts *CheckoutOptions) error {
+func (w *Worktree) Checkout(opts *CheckoutOptions) (err error) {
 	if trace.Performance.Enabled() {
 		start := time.Now()
 		defer func() {
@@ -219,10 +219,28 @@ func (w *Worktree) Checkout(opts *CheckoutOptions) error {
 		return err
 	}
 
+	// HEAD is moved, and with Create the branch is created, before Reset can
+	// refuse (local changes, missing sparse directory, ...). A checkout that
+	// fails leaves both as they were.
+	head, headErr := w.r.Storer.Reference(plumbing.HEAD)
+	created := false
+	defer func() {
+		if err == nil {
+			return
+		}
+		if created {
+			_ = w.r.Storer.RemoveReference(opts.Branch)
+		}
+		if headErr == nil {
+			_ = w.r.Storer.SetReference(head)
+		}
+	}()
+
 	if opts.Create {
 		if err := w.createBranch(opts); err != nil {
 			return err
 		}
+		created = true
 	}
 
 	c, err := w.getCommitFromCheckoutOptions(opts)
